@@ -35,6 +35,11 @@ fn main() {
     let mut ctx = Ctx::new(id, tier, seed, level_of(id));
     match id {
         "C01" => vh::router::props::c01(&mut ctx),
+        "C02" => vh::router::props::c02(&mut ctx),
+        "C08" => vh::router::props::c08(&mut ctx),
+        "C09" => vh::router::props::c09(&mut ctx),
+        "C10" => vh::router::props::c10(&mut ctx),
+        "C16" => vh::router::props::c16(&mut ctx),
         _ => { eprintln!("unknown property {id}"); std::process::exit(2) }
     }
     std::process::exit(ctx.finish());
@@ -42,6 +47,8 @@ fn main() {
 
 fn replay(id: &'static str, leg: &str, case: &serde_json::Value) -> i32 {
     if leg.starts_with("ps-") { return vh::router::props::replay_ps(id, case); }
+    if leg.ends_with("-direct") { return vh::router::props::replay_d(id, case); }
+    if leg.starts_with("rr-") { return vh::router::props::replay_rr(id, leg, case); }
     eprintln!("no replay handler for leg {leg}");
     2
 }
